@@ -8,4 +8,7 @@ var zzHarnesses = map[string]func([]int){
 	"ZZ_C15_rt":    ZZ_C15_rt,
 	"ZZ_C15_agree": ZZ_C15_agree,
 	"ZZ_C15_api":   ZZ_C15_api,
+	"ZZ_C04_um":    ZZ_C04_um,
+	"ZZ_C04_rp":    ZZ_C04_rp,
+	"ZZ_C01_rt":    ZZ_C01_rt,
 }
